@@ -1092,8 +1092,20 @@ Proof. split; reflexivity. Qed.
 
 Lemma url_tables_are_L0 :
   url_special_schemes = special_schemes_L0 /\ url_file_schemes = ["file"%string] /\
-  url_ignored_next_utf8 = [9; 10; 13] /\ url_ignored_parse_host = [9; 10; 13] /\ url_trim_max = 32.
-Proof. repeat split; reflexivity. Qed.
+  url_ignored_next_utf8 = [9; 10; 13] /\ url_ignored_parse_host = [9; 10; 13] /\
+  url_ignored_host_filter = [9; 10; 13] /\ url_trim_max = 32 /\
+  (forall b, idna_rejected b = true <-> b <= 32 \/ b = 127 \/ In b (bs "#/:<>?@[\]^|")).
+Proof.
+  repeat split; try reflexivity.
+  - intros H. unfold idna_rejected in H. apply memN_In in H. cbn in H.
+    repeat (destruct H as [<-|H]; [try (left; lia); try (right; left; reflexivity); right; right; cbn; tauto|]).
+    destruct H.
+  - intros [H|[->|H]].
+    + assert (F : forallb (fun n => idna_rejected (N.of_nat n)) (seq 0 33) = true) by (vm_compute; reflexivity).
+      rewrite forallb_forall in F. specialize (F (N.to_nat b)). rewrite N2Nat.id in F. apply F. apply in_seq. lia.
+    + reflexivity.
+    + cbn in H. repeat (destruct H as [<-|H]; [reflexivity|]). destruct H.
+Qed.
 
 Lemma userinfo_set_is_whatwg b : b < 128 -> in_userinfo_set b = whatwg_userinfo_encode b.
 Proof.
